@@ -26,4 +26,10 @@ CHECKS = {
         "text": "TLC explores every conversion history of the label/monomial abstraction (all label states of the factorised space, 327 operations each incl. omitted/unknown arguments) and checks Valid, Consistent (data = original converted directly), RoundTrip and that each implementation step is prescriptively allowed; every (label state, operation) step is then executed on a real PointIsotherm and judged by the TLC oracle from the actual pre-state (labels, outcome, refusal rights, data monomials evaluated to 1e-9, auxiliary columns/metadata untouched, constructor re-validation); TLC-generated and seeded 12-step histories are replayed and returned to the start representation.",
         "note": "Trusted: Canon definitions of spec/Units.tla; the constructor's acceptance test as transcribed in IsoValid (also run literally); data independence sampled over 3 data sets; quick tier visits a seeded 4.5% slice of the 169 290 loading x material single steps (thorough: all).",
     },
+    "C03": {
+        "level": "model_checking",
+        "technique": "TLA+ accessor-pipeline model (spec/IsoAccess.tla: prescriptive 'convert a copy then read' via IsoConvert, descriptive ImplAccess per accessor) model-checked by TLC over accessor x stored representation x argument pattern (IsoAccessMC), TLC step oracle on real accessor calls of both isotherm classes, TLC-computed scenario tables (spec/IsoData.tla) for branch guessing, selection and exact rational interpolation",
+        "text": "TLC shows at design level that each accessor's conversion pipeline equals permanent conversion of a copy on the whole stored x requested product except in one recorded family; every sampled real call (10 accessors, covering stored representations, omitted/valid/wrong-kind/unknown arguments) is judged against the allowed input/output monomials and, for point isotherms, against the literally converted copy; branch guessing is replayed for every pressure sequence up to length 4-5 under 14 construction routes/labellings, selection for every branch x limit pair, interpolation against exact rationals.",
+        "note": "Trusted: Canon definitions; native (argument-less) reads of a fresh isotherm as the meaning of 'read natively'; boundary-equal limit points unconstrained; either leading-maximum reading accepted. One known finding (fraction loading + material argument), matched only when the observed numbers equal the pipeline model's prediction.",
+    },
 }
